@@ -47,16 +47,29 @@ Section Fragment.
   (* ---------- what encrypt leaves of the half connection --------------------------------------------------- *)
   Lemma encrypt_fields hc data e hc' rec_ : encrypt P hc data e = Ok (hc', rec_) ->
     hc_err hc' = hc_err hc /\ hc_version hc' = hc_version hc /\ hc_mac hc' = hc_mac hc /\
-    kind (hc_cipher hc') = kind (hc_cipher hc) /\ length (hc_seq hc') = length (hc_seq hc).
+    kind (hc_cipher hc') = kind (hc_cipher hc) /\ incSeq_loop 7 (hc_seq hc) = Ok (hc_seq hc').
   Proof.
     unfold encrypt. intros H.
     destruct (hc_cipher hc) as [|key fixed|key iv] eqn:Ec; break_hyps;
       match goal with
       | Hi : incSeq _ = Ok _ |- _ =>
         apply incSeq_fields in Hi; cbn [set_cipher hc_err hc_version hc_mac hc_cipher hc_seq] in Hi;
-        destruct Hi as [-> [-> [-> [-> Hl]]]]; apply incSeq_loop_length in Hl
+        destruct Hi as [-> [-> [-> [-> Hl]]]]
       end; rewrite ?Ec; cbn [kind]; auto.
   Qed.
+
+  Lemma seq_step s sq' : (s < 2 ^ 64)%N -> incSeq_loop 7 (be64 s) = Ok sq' ->
+    exists s', (s' < 2 ^ 64)%N /\ sq' = be64 s'.
+  Proof.
+    intros Hs H. rewrite incSeq_loop_be64 in H by exact Hs.
+    destruct (N.eqb_spec s (2 ^ 64 - 1)) as [|Hne]; [discriminate|]. injection H as <-.
+    exists (s + 1)%N. split; [lia|reflexivity].
+  Qed.
+
+  Lemma bytes_ok_firstn n l : bytes_ok l -> bytes_ok (firstn n l).
+  Proof. unfold bytes_ok. intros H. rewrite <- (firstn_skipn n l) in H. apply Forall_app in H. apply H. Qed.
+  Lemma bytes_ok_skipn n l : bytes_ok l -> bytes_ok (skipn n l).
+  Proof. unfold bytes_ok. intros H. rewrite <- (firstn_skipn n l) in H. apply Forall_app in H. apply H. Qed.
 
   Lemma maxPayload_le c typ e : fst (maxPayloadSizeForWrite P c typ e) <= maxPlaintext.
   Proof.
@@ -71,7 +84,7 @@ Section Fragment.
   Inductive chain : halfConn -> list (list N) -> list (list N) -> halfConn -> Prop :=
   | chain_nil hc : chain hc [] [] hc
   | chain_cons hc hc1 hc2 eiv fr rec_ recs frs :
-      length eiv = explicit_len P (hc_cipher hc) -> length fr <= maxPlaintext ->
+      length eiv = explicit_len P (hc_cipher hc) -> bytes_ok eiv -> length fr <= maxPlaintext ->
       encrypt P hc ([recordTypeApplicationData; 1; 1]%N ++ len_bytes (length fr) ++ eiv ++ fr) (length eiv)
         = Ok (hc1, rec_) ->
       chain hc1 recs frs hc2 -> chain hc (rec_ :: recs) (fr :: frs) hc2.
@@ -88,8 +101,9 @@ Section Fragment.
 
   (* sender side invariant *)
   Definition sender_ok (c : connOut) : Prop :=
-    o_vers c = VersionGMSSL /\ hc_version (o_hc c) = VersionGMSSL /\ length (hc_seq (o_hc c)) = 8 /\
-    kind (hc_cipher (o_hc c)) <> 0.
+    o_vers c = VersionGMSSL /\ hc_version (o_hc c) = VersionGMSSL /\
+    (exists s, (s < 2 ^ 64)%N /\ hc_seq (o_hc c) = be64 s) /\
+    kind (hc_cipher (o_hc c)) <> 0 /\ bytes_ok (o_rand c).
 
   (* ---------- one pass of the loop of writeRecordLocked -------------------------------------------------- *)
   Lemma writeRecord_step_chain c data c1 rec_ m :
@@ -97,7 +111,7 @@ Section Fragment.
     sender_ok c1 /\ m <= length data /\ chain (o_hc c) [rec_] [firstn m data] (o_hc c1) /\
     o_closeNotifySent c1 = o_closeNotifySent c /\ hc_err (o_hc c1) = hc_err (o_hc c).
   Proof.
-    intros [Hv [Hhv [Hlen Hkind]]] H. unfold writeRecord_step in H.
+    intros [Hv [Hhv [[s0 [Hs0 Hseq]] [Hkind Hrand]]]] H. unfold writeRecord_step in H.
     rewrite Hhv, Hv in H.
     change (explicit_iv_version VersionGMSSL) with true in H.
     change ((VersionGMSSL =? 0)%N) with false in H.
@@ -121,12 +135,16 @@ Section Fragment.
       destruct (encrypt P hc _ e) as [[hc' r]| | |] eqn:Ee; cbn [obind] in H; try discriminate.
       injection H as <- <- <-.
       destruct (encrypt_fields _ _ _ _ _ Ee) as [Herr [Hver [_ [Hk Hl]]]].
-      split; [unfold sender_ok, out_with; cbn [o_vers o_hc]; repeat split; congruence|].
+      fold hc in Hseq. rewrite Hseq in Hl. destruct (seq_step _ _ Hs0 Hl) as [s1 [Hs1 Hseq1]].
+      split; [unfold sender_ok, out_with; cbn [o_vers o_hc o_rand];
+              split; [exact Hv|]; split; [congruence|]; split; [exists s1; auto|];
+              split; [congruence|apply bytes_ok_skipn; exact Hrand]|].
       split; [lia|]. split; [|split; [reflexivity|exact Herr]].
       cbn [out_with o_hc].
       assert (Hfl : length (firstn m0 data) = m0) by (rewrite firstn_length; lia).
-      eapply chain_cons with (eiv := firstn e (o_rand c)); [| | |apply chain_nil].
+      eapply chain_cons with (eiv := firstn e (o_rand c)); [| | | |apply chain_nil].
       + rewrite firstn_length, Ec. cbn [explicit_len]. lia.
+      + apply bytes_ok_firstn; exact Hrand.
       + rewrite Hfl. lia.
       + rewrite Hfl. rewrite firstn_length. replace (Nat.min e (length (o_rand c))) with e by lia.
         cbn [app] in Ee |- *. exact Ee.
@@ -140,12 +158,17 @@ Section Fragment.
       destruct (encrypt P hc _ 8) as [[hc' r]| | |] eqn:Ee; cbn [obind] in H; try discriminate.
       injection H as <- <- <-.
       destruct (encrypt_fields _ _ _ _ _ Ee) as [Herr [Hver [_ [Hk Hl]]]].
-      split; [unfold sender_ok, out_with; cbn [o_vers o_hc]; repeat split; congruence|].
+      fold hc in Hseq. rewrite Hseq in Hl. destruct (seq_step _ _ Hs0 Hl) as [s1 [Hs1 Hseq1]].
+      assert (Hlen : length (hc_seq hc) = 8) by (rewrite Hseq; apply be_length).
+      split; [unfold sender_ok, out_with; cbn [o_vers o_hc o_rand];
+              split; [exact Hv|]; split; [congruence|]; split; [exists s1; auto|];
+              split; [congruence|exact Hrand]|].
       split; [lia|]. split; [|split; [reflexivity|exact Herr]].
       cbn [out_with o_hc].
       assert (Hfl : length (firstn m0 data) = m0) by (rewrite firstn_length; lia).
-      eapply chain_cons with (eiv := firstn 8 (hc_seq hc)); [| | |apply chain_nil].
+      eapply chain_cons with (eiv := firstn 8 (hc_seq hc)); [| | | |apply chain_nil].
       + rewrite firstn_length, Ec. cbn [explicit_len]. lia.
+      + apply bytes_ok_firstn. rewrite Hseq. apply be_bytes_ok.
       + rewrite Hfl. lia.
       + rewrite Hfl. rewrite firstn_length. replace (Nat.min 8 (length (hc_seq hc))) with 8 by lia.
         cbn [app] in Ee |- *. exact Ee.
@@ -261,12 +284,6 @@ Section Fragment.
   Lemma obind_ret {A B} (X : outcome (A * B)) : (do '(a, b) <- X; Ok (a, b)) = X.
   Proof. destruct X as [[a b]| | |]; reflexivity. Qed.
 
-  Lemma bytes_ok_concat_inv (l : list (list N)) : bytes_ok (concat l) -> Forall bytes_ok l.
-  Proof.
-    induction l as [|x l IH]; intros H; [constructor|]. cbn [concat] in H. unfold bytes_ok in H.
-    apply Forall_app in H. destruct H as [H1 H2]. constructor; [exact H1|apply IH; exact H2].
-  Qed.
-
   Lemma explicit_len_le cs : explicit_len P cs <= 8 + p_bs P.
   Proof. destruct cs; cbn [explicit_len]; lia. Qed.
 
@@ -280,14 +297,14 @@ Section Fragment.
           (do '(rest, c2) <- recv_all P rounds (S fuel) (mkIn hcR' VersionGMSSL tail None warn' alerts trace');
            Ok (concat frs ++ rest, c2)).
   Proof.
-    induction 1 as [hc|hc hc1 hc2 eiv fr rec_ recs frs He Hfr Henc Hch IH];
+    induction 1 as [hc|hc hc1 hc2 eiv fr rec_ recs frs He Heb Hfr Henc Hch IH];
       intros s hcR Hk Hs Hb Hv Herr Hbytes tail warn alerts trace rounds fuel.
     - exists hcR, warn, trace. split; [exact Herr|]. split; [exact Hv|].
       cbn [length concat app Nat.add]. symmetry. apply obind_ret.
     - inversion Hbytes as [|? ? Hbfr Hbrest]; subst.
       cbn [length] in Hb.
       destruct (decrypt_encrypt_record_ok P Hok hc hcR s [recordTypeApplicationData; 1; 1]%N eiv fr Hk Hs
-                  ltac:(lia) Hv eq_refl He Hbfr
+                  ltac:(lia) Hv eq_refl He Heb Hbfr
                   ltac:(unfold maxPlaintext in Hfr; change (2 ^ 30)%N with 1073741824%N; lia))
         as [w' [rec' [r' [Henc' [Hdec [Hsw [Hsr [Hk' [Hvr [Her [_ [_ [body [Hshape Hbody]]]]]]]]]]]]]].
       cbn [app] in Henc, Henc'. rewrite Henc in Henc'. injection Henc' as <- <-.
